@@ -7,12 +7,17 @@
    never yields gives no body run and nil; a return in the body ends the loop
    without resuming the generator; errors in generator or body end the
    statement; in a two-iterator loop the second iterator being exhausted ends
-   the loop after the first variable was bound.  NOT proved: that
+   the loop after the first variable was bound; and for any number of
+   values: a generator that hands out n values (each in the state it was
+   resumed in, touching only its own frame) makes the body run exactly n
+   times, once per value and in order, with the loop variable bound to it
+   ([C02_n_yields_n_bodies_in_order], ForProofs.v; instantiated for the
+   built-in generators in C17).  NOT proved: that
    CCONT/YIELD/SCONT/DCONT/RCONT implement this (part of C01's open
    statement).  The check decides it on generator-heavy sessions with Sem as
    oracle. *)
 Require Import Calc.Base Calc.Bytecode Calc.Value Calc.FloatText Calc.Ast Calc.Resolve Calc.Compile
-        Calc.VM Calc.Sem Calc.SemProofs Calc.Session Calc.CorrSession Calc.SemSession.
+        Calc.VM Calc.Sem Calc.SemProofs Calc.Session Calc.CorrSession Calc.SemSession Calc.GenProofs Calc.ForProofs.
 Open Scope Z_scope.
 
 (* a yield with no enclosing for loop only evaluates to its operand *)
@@ -177,3 +182,18 @@ Example C02_readme_cross_product_and_zip :
                NName "acc"])
     = CVal (VArr [VStr "1a"; VStr "2b"]).
 Proof. vm_compute. split; reflexivity. Qed.
+
+(* n yields, n bodies, in order: J i is whatever holds when value i has just been handed out *)
+Theorem C02_n_yields_n_bodies_in_order :
+  forall (f : nat) (v : string) (body : node) (fid : Z) (fr : nat -> list value) (val : nat -> value) (n : nat)
+         (J : nat -> sstate -> Prop),
+  (forall i, (i < n)%nat -> is_nil (val i) = false) ->
+  (forall i st, (i < n)%nat -> J i st -> frame_of st fid = Some (fr i) ->
+     exists st1 x, eval f body env_top (set_global st v (val i)) = Done st1 (CVal x) /\
+                   frame_of st1 fid = Some (fr i) /\ J (S i) (set_frame st1 fid (fr (S i)))) ->
+  forall it st st0,
+    gen fid fr val n 0 st0 (eval f it env_top st) ->
+    (n <= f)%nat -> J 0%nat st0 -> frame_of st0 fid = Some (fr 0%nat) ->
+    exists st' x, eval (S f) (NFor [NName v] [it] body) env_top st = Done st' (CVal x) /\ J n st'.
+Proof. exact for_over_gen. Qed.
+Print Assumptions C02_n_yields_n_bodies_in_order.
